@@ -441,6 +441,10 @@ class BreakSystem(System):
                 for w in ("", " "):
                     yield f"k: {q}a{w}{br} b{q}"
                     yield f"k: {q}a{br} {w}b{q}\nz: 1"
+            # an ESCAPED first break inside a double-quoted scalar (line continuation), followed by the rest of the run
+            yield f'k: "a\\{br} b"'
+            yield f'k: "\\{br}"'
+            yield f'k: "a \\{br}  b\\{br} c"\nz: 1' 
             for h in ("|", ">", "|-", ">+"):
                 yield f"k: {h}{br} a{br} b"
                 yield f"k: {h}\n a{br} b\nz: 1"
